@@ -129,14 +129,17 @@ theorem history_autoclear_drain_no_runs (c : Nat) (hc : 1 ≤ c) (conc : Bool) (
 
 /-- **The executable statement of the C13 driver implies the statement of `history_fault_surfaces`**
     on the implementation's outputs: if `surfaceStatement` accepts the outputs of a program that
-    `historyOf` recognises as the well-formed history `h`, then some call returned an error
-    (an I/O error, or the "push on finalised" error), or the outputs satisfy `HistorySpec`. -/
+    `historyOf` recognises (rejected pushes removed) as the well-formed history `h`, then some
+    call returned an error (an I/O error, or the "push on finalised" error — the type-mismatch
+    error of a rejected `Push` does not count), or the outputs of the accepted calls satisfy
+    `HistorySpec` and every rejected `Push` was a no-op. -/
 theorem surfaceStatement_sound (ac : Bool) (ops : List Op) (h : List Cycle) (outs : List Out)
-    (hh : historyOf ac ops = some h) (hs : Biogo.Drive.C13.surfaceStatement ac h ops outs = none) :
-    (∃ o ∈ outs, o.res = .ioerr ∨ o.res = .finalised) ∨ HistorySpec ac h outs := by
+    (hh : historyOf ac (dropRejects ops) = some h) (hs : Biogo.Drive.C13.surfaceStatement ac h ops outs = none) :
+    (∃ o ∈ outs, o.res = .ioerr ∨ o.res = .finalised)
+    ∨ (HistorySpec ac h (dropRejOuts outs) ∧ outs = weave ops (dropRejOuts outs) 0 0) := by
   unfold Biogo.Drive.C13.surfaceStatement at hs
   simp only at hs
-  cases hf : outs.find? (fun o => o.res != .ok && o.res != .eof) with
+  cases hf : outs.find? (fun o => o.res != .ok && o.res != .eof && o.res != .rejected) with
   | some o =>
     left
     rw [hf] at hs
@@ -149,6 +152,7 @@ theorem surfaceStatement_sound (ac : Bool) (ops : List Op) (h : List Cycle) (out
     right
     rw [hf] at hs
     simp only [Option.any_none, Bool.false_eq_true, if_false, Option.isSome_none, Option.map_eq_none_iff] at hs
-    exact (Biogo.Properties.C11_checker.historyStatement_sound ac ops h outs hh hs).2.2
+    have := Biogo.Properties.C11_checker.programStatement_sound ac ops h outs hh hs
+    exact ⟨this.2.2.1, this.2.2.2⟩
 
 end Biogo.Properties.C13_history
